@@ -188,6 +188,15 @@ def make_result(case):
         lab = f"ds{i+1}"
         md["dataset"][lab] = {"megacomplex": ["m1", "m2"], "irf": "irf1"}
         data[lab] = B.noisy_dataset(TIME, SPEC + 5.0 * i, seed=4, salt=lab)
+    # the input data has a previous life: it was saved to and loaded from a raw-data folder that no longer exists
+    from glotaran.io import load_dataset
+    from glotaran.io import save_dataset
+
+    with tempfile.TemporaryDirectory(prefix="vf-c17-raw-") as raw, warnings.catch_warnings():
+        warnings.simplefilter("ignore")
+        for lab in list(data):
+            save_dataset(data[lab], os.path.join(raw, f"{lab}.nc"))
+            data[lab] = load_dataset(os.path.join(raw, f"{lab}.nc")).load()
     if case.get("weights"):
         md["weights"] = [{"datasets": ["ds1"], "global_interval": (600.0, 650.0), "value": 0.5}]
     if case.get("penalty"):
@@ -300,6 +309,7 @@ def case_result(case):
                         vs.append(V("reference-does-not-resolve", file=yml, reference=ref))
             loaded = load_result(folder / "result.yml" if case["target"] != "folder" else folder)
             vs += compare_results(result, loaded, options, "in place")
+            vs += check_sources(loaded, folder, "in place")
             # move the folder, load again
             moved = Path(d) / "elsewhere" / "deep" / "moved_run"
             moved.parent.mkdir(parents=True)
@@ -309,6 +319,7 @@ def case_result(case):
             try:
                 loaded2 = load_result(moved / "result.yml")
                 vs += compare_results(result, loaded2, options, "after moving the folder")
+                vs += check_sources(loaded2, moved, "after moving the folder")
                 # re-save a loaded result somewhere else, delete the first folder, load again
                 if case.get("resave"):
                     again = Path(d) / "resaved" / "result.yml"
@@ -316,12 +327,26 @@ def case_result(case):
                     shutil.rmtree(moved)
                     loaded3 = load_result(again)
                     vs += compare_results(result, loaded3, options, "re-saved from a loaded result, source folder deleted")
+                    vs += check_sources(loaded3, again.parent, "re-saved from a loaded result, source folder deleted")
             except Exception as e:  # noqa: BLE001
                 vs.append(V("moved-result-cannot-be-loaded", exc=repr(e)[:300]))
         finally:
             os.chdir(cwd)
     key = {k: case[k] for k in case if k != "seed"}
     return core.ok(key=key, outcome=len(vs), violations=vs)
+
+
+def check_sources(loaded, folder, where):
+    """every dataset of a loaded result (and of its scheme) says it comes from a file inside the folder it was loaded from"""
+    vs = []
+    folder = Path(folder).resolve()
+    for holder, datasets in (("result.data", loaded.data), ("result.scheme.data", loaded.scheme.data)):
+        for label, ds in datasets.items():
+            sp = ds.attrs.get("source_path")
+            ok = sp is not None and Path(sp).resolve().is_file() and folder in Path(sp).resolve().parents
+            if not ok:
+                vs.append(V("loaded-dataset-does-not-point-into-the-result-folder", holder=holder, dataset=label, source_path=str(sp), where=where))
+    return vs
 
 
 def refs_of(spec):
@@ -370,6 +395,16 @@ def case_netcdf(case):
         f = os.path.join(d, "x", "data.nc")
         save_dataset(ds, f)
         ld = load_dataset(f)
+        first_source = str(ld.attrs.get("source_path"))
+        # second life: the loaded dataset is saved somewhere else and loaded from there
+        f2 = os.path.join(d, "y", "copy.nc")
+        save_dataset(ld.load(), f2)
+        ld2 = load_dataset(f2)
+        if Path(str(ld2.attrs.get("source_path"))).resolve() != Path(f2).resolve():
+            vs.append(V("loaded-dataset-source-path-wrong", got=str(ld2.attrs.get("source_path")), want=f2, life="second"))
+        for name in ds.data_vars:
+            if name not in ld2 or not np.array_equal(ld2[name].values, ds[name].values):
+                vs.append(V("netcdf-variable-not-bit-equal", variable=str(name), shape=case["shape"], coords=case["coords"], life="second"))
         for name in ds.data_vars:
             if name not in ld or ld[name].dims != ds[name].dims or ld[name].dtype != ds[name].dtype or not np.array_equal(ld[name].values, ds[name].values):
                 vs.append(V("netcdf-variable-not-bit-equal", variable=str(name), shape=case["shape"], coords=case["coords"]))
@@ -379,8 +414,8 @@ def case_netcdf(case):
         for k in ("note", "number"):
             if ld.attrs.get(k) != ds.attrs[k]:
                 vs.append(V("netcdf-attribute-changed", attribute=k))
-        if isinstance(ld, xr.Dataset) and Path(str(ld.attrs.get("source_path"))).name != "data.nc":
-            vs.append(V("loaded-dataset-source-path-wrong", got=str(ld.attrs.get("source_path"))))
+        if isinstance(ld, xr.Dataset) and Path(first_source).resolve() != Path(f).resolve():
+            vs.append(V("loaded-dataset-source-path-wrong", got=first_source))
     return core.ok(key=[case["shape"], case["coords"], case["scale"]], outcome=len(vs), violations=vs)
 
 
